@@ -11,6 +11,6 @@ for d in sorted(glob.glob('/verif/seeded/*/meta.json')):
 table = '| seed | breaks | the change | needs | caught by (quick tier) |\n|---|---|---|---|---|\n' + '\n'.join(rows)
 p = '/verif/DESIGN.md'
 s = open(p).read()
-s = re.sub(r'<!-- SEEDS-BEGIN -->.*?<!-- SEEDS-END -->', '<!-- SEEDS-BEGIN -->\n' + table + '\n<!-- SEEDS-END -->', s, flags=re.S)
+s = re.sub(r'<!-- SEEDS-BEGIN -->.*?<!-- SEEDS-END -->', lambda m: '<!-- SEEDS-BEGIN -->\n' + table + '\n<!-- SEEDS-END -->', s, flags=re.S)
 open(p, 'w').write(s)
 print(len(rows), 'seeds')
